@@ -23,7 +23,12 @@ P = {'id': 'C07',
               'five_level_used_exact',
               'five_link_write_safe',
               'five_offset_wrap_refuted',
-              'five_small_align_refuted'],
+              'five_small_align_refuted',
+              'threadlocal_inv',
+              'threadlocal_refuses_over_capacity',
+              'threadlocal_reissue_fits',
+              'threadlocal_free_reuse',
+              'threadlocal_arenas_retained'],
  'trusted': ['modelled (M+S): src/memory/lockfree_pool.rs (allocate, deallocate, allocate_from_fast_bin, deallocate_to_fast_bin, allocate_new_block, '
              'size_to_bin_index, align_size, ptr_to_offset; FAST_BIN_SIZES is read from the source by the harness and compared with the model table in every '
              'Coq-evaluated case), sequential semantics, free lists as stacks of offsets; src/memory/bump.rs (alloc_bytes, BumpScope drop) with the buffer '
